@@ -293,9 +293,11 @@ impl<'a> Context<'a> {
     let mut diagnostics = Vec::new();
 
     if let Some(file_ignore) = self.file_ignore_directive.as_ref() {
-      for (unused_code, _status) in
-        file_ignore.codes().iter().filter(is_unused_code)
-      {
+      let mut unused_codes: Vec<_> =
+        file_ignore.codes().iter().filter(is_unused_code).collect();
+      // `codes()` is a `HashMap`; sort so that the output order is deterministic
+      unused_codes.sort_by_key(|(code, _)| *code);
+      for (unused_code, _status) in unused_codes {
         let d = self.create_diagnostic(
           Some(self.create_diagnostic_range(file_ignore.range())),
           self.create_diagnostic_details(
@@ -314,9 +316,10 @@ impl<'a> Context<'a> {
       // `ban-unused-ignore`. `ban-unused-ignore` can be ignored only via the
       // file-level directive.
 
-      for (unused_code, _status) in
-        line_ignore.codes().iter().filter(is_unused_code)
-      {
+      let mut unused_codes: Vec<_> =
+        line_ignore.codes().iter().filter(is_unused_code).collect();
+      unused_codes.sort_by_key(|(code, _)| *code);
+      for (unused_code, _status) in unused_codes {
         let d = self.create_diagnostic(
           Some(self.create_diagnostic_range(line_ignore.range())),
           self.create_diagnostic_details(
@@ -344,11 +347,14 @@ impl<'a> Context<'a> {
     let mut diagnostics = Vec::new();
 
     if let Some(file_ignore) = self.file_ignore_directive.as_ref() {
-      for unknown_rule_code in file_ignore
+      let mut unknown_rule_codes: Vec<_> = file_ignore
         .codes()
         .keys()
         .filter(|code| !enabled_rules.contains(code.as_str()))
-      {
+        .collect();
+      // `codes()` is a `HashMap`; sort so that the output order is deterministic
+      unknown_rule_codes.sort();
+      for unknown_rule_code in unknown_rule_codes {
         let d = self.create_diagnostic(
           Some(self.create_diagnostic_range(file_ignore.range())),
           self.create_diagnostic_details(
@@ -363,11 +369,13 @@ impl<'a> Context<'a> {
     }
 
     for line_ignore in self.line_ignore_directives.values() {
-      for unknown_rule_code in line_ignore
+      let mut unknown_rule_codes: Vec<_> = line_ignore
         .codes()
         .keys()
         .filter(|code| !enabled_rules.contains(code.as_str()))
-      {
+        .collect();
+      unknown_rule_codes.sort();
+      for unknown_rule_code in unknown_rule_codes {
         let d = self.create_diagnostic(
           Some(self.create_diagnostic_range(line_ignore.range())),
           self.create_diagnostic_details(
